@@ -72,6 +72,35 @@ def at(res, dims, idx):
     return S.project(res.isel(sel))
 
 
+def _blocks_on_threads(seed, nt, nk, nth, workers):
+    """a dask-backed dataset whose blocks are partitioned by several threads at once: at every position the batched result must still be
+    the result for that spectrum on its own (computed serially, in memory)."""
+    import dask
+    import xarray as xr
+    rng = np.random.RandomState(seed)
+    ii, jj = np.meshgrid(np.arange(nk), np.arange(nth), indexing="ij")
+    a = np.zeros((nt, nk, nth))
+    for t in range(nt):
+        for _k in range(3):
+            ci, cj, amp = rng.randint(1, nk - 1), rng.randint(0, nth), rng.randint(30, 90)
+            dj = np.minimum((jj - cj) % nth, (cj - jj) % nth)
+            a[t] += np.maximum(0, amp - 0.5 * (np.abs(ii - ci) + dj) ** 2)
+        a[t] += rng.randint(1, 3, size=(nk, nth))
+    da = xr.DataArray(a, coords={"time": np.arange(nt), "freq": 0.04 + 0.012 * np.arange(nk), "dir": np.arange(nth) * (360.0 / nth)},
+                      dims=("time", "freq", "dir"), name="efth")
+    mk = lambda v: xr.DataArray(np.full(nt, v) + np.arange(nt) % 5, coords={"time": da.time}, dims=("time",))  # noqa
+    w = (mk(9.0), mk(40.0), mk(60.0))
+    calls = {"ptm3": lambda x, ww: x.spec.partition.ptm3(parts=3), "ptm1": lambda x, ww: x.spec.partition.ptm1(*ww, swells=2)}
+    bad = {}
+    for name, fn in calls.items():
+        single = [np.asarray(fn(da.isel(time=[t]), tuple(x.isel(time=[t]) for x in w)).values)[:, 0] for t in range(nt)]
+        for rep in range(2):
+            with dask.config.set(scheduler="threads", num_workers=workers):
+                got = np.asarray(fn(da.chunk({"time": 4}), w).compute().transpose("part", "time", "freq", "dir").values)
+            bad[name] = max(bad.get(name, 0), sum(1 for t in range(nt) if not np.array_equal(got[:, t], single[t])))
+    return bad, nt
+
+
 def run(ctx):
     setup_repo_imports()
     import warnings
@@ -174,6 +203,20 @@ def run(ctx):
                                       {"before": v["before"], "after": v["after"], "shape": shape, "dims": dims})
                     else:
                         ctx.replayed()
+    from harness.core import run_forked
+    nt, nk, nth, workers = (48, 30, 36, 8) if ctx.quick else (160, 48, 72, 16)
+    kind, val = run_forked(_blocks_on_threads, ctx.seed, nt, nk, nth, workers, timeout=900)
+    ctx.case(("blocks-on-threads", nt, nk, nth, workers), True)
+    if kind == "crash":
+        ctx.violation({"stage": "blocks-on-threads", "kind": "crash"}, "the interpreter died while %d threads partitioned the blocks of one dataset (%s)" % (workers, val))
+    else:
+        bad, n = val
+        for name, k in bad.items():
+            if k:
+                ctx.violation({"stage": "blocks-on-threads", "op": name, "clause": "BatchEqualsSingle"},
+                              "%s on a dask-backed dataset computed by %d threads: %d of %d positions differ from the same spectrum partitioned on its own" % (name, workers, k, n))
+            else:
+                ctx.replayed(n)
     if scen:
         ctx.sample({"kind": "scenario", "shape": scen[0]["shape"], "dims": scen[0]["dims"], "before": scen[0]["before"], "after": scen[0]["after"],
                     "edited": scen[0]["edited"]})
